@@ -354,6 +354,17 @@ def run_cross_multi(ctx, p):
             worst = max(worst, rel(r.data[i], want, float(np.linalg.norm(v) * np.linalg.norm(o))))
     ctx.judge('cross', ok and worst <= TOL, dict(sig, kind='value_or_class_wrong', got=type(r).__name__),
               lambda: '%s(%d values) x %s(%d values) gives %s of length %d, worst relative error %.3g' % (cl, m, cr, n, type(r).__name__, len(getattr(r, 'data', [])), worst))
+    if ok and cr not in MOTION and hasattr(r, 'dot'):
+        # the duality value by value: (v x* f_i) . m = -f_i . (v x m) for one motion vector m (dot() of a force object holding
+        # several values gives one number per value)
+        mv = np.asarray(p.get('m', vs[0][::-1]), float)
+        try:
+            got = np.asarray(r.dot(mv), dtype=np.float64).reshape(-1)
+            want = np.array([float(np.dot(r.data[i], mv)) for i in range(k)])
+            okd = got.shape == want.shape and np.all(np.abs(got - want) <= TOL * max(1e-300, float(np.max(np.abs(want)))) + 0 * want)
+        except Exception as e:
+            okd, got, want = False, repr(e), None
+        ctx.judge('cross', okd, dict(sig, kind='dot_of_sequence_wrong'), lambda: '(%s x %s).dot(m) on %d values gives %s, value by value %s' % (cl, cr, k, got, want))
     ctx.cell('cross_multi', cl, cr, p['via'], sig['lens'])
     ctx.nontrivial('cross_multi', cl, cr, m, n, [float('%.9g' % t) for t in np.r_[vs[0], os_[0]]])
 
@@ -405,6 +416,14 @@ def run(ctx):
         right = ['SpatialVelocity', 'SpatialForce', 'SpatialMomentum'][rng.integers(3)]
         via = 'matmul' if (left == 'SpatialVelocity' and rng.random() < 0.5) else 'cross'
         p = dict(left=left, right=right, v=vec6(rng), o=vec6(rng), via=via, m=vec6(rng))
+        if rng.random() < 0.1:       # coincidences: the other operand holds the very same six numbers (or their negative, or m does)
+            k_ = rng.integers(3)
+            if k_ == 0:
+                p['o'] = p['v'].copy()
+            elif k_ == 1:
+                p['o'] = -p['v']
+            else:
+                p['m'] = p['v'].copy()
         if rng.random() < 0.25:      # structured operands: pure translation / pure rotation (one half exactly zero), a single component
             for key in ('v', 'o'):
                 r_ = rng.random()
